@@ -43,6 +43,15 @@ replay: each history is executed on
             the driver builds a NEW TimeSeriesHolder holding copies of the series stored just before the call
             and renders that (same code, same stored series, no call history); fresh_same says whether the two
             texts are equal.  "The same stored series always give the same text" -> C16_Repeatable requires it.
+          * renderings with DIFFERENT formats (instances MC_Results_formats*): '%.5g' and '%.2f', of the main
+            holder and of a second holder (step group) that shares the series name x.  The reference rendering
+            of every RenderTable is made by the PRISTINE process: forked from the driver before anything of
+            sfc_models was executed, it forks once more for every request, so the reference - a new holder with
+            copies of the stored series, rendered with the format of the call - comes from a state that no
+            rendering anywhere else can have touched (class attributes, default arguments, module globals).
+            References are cached by (class, stored series, format): that they are a function of exactly that
+            is the point.  A violation found in the shared driver process is executed again alone in a fork
+            of the pristine process; a history that reproduces there is the one reported.
           * a small BaseSolver subclass (the object of test_base_solver.py) for BaseCsv
         after every call a deep snapshot of the three holders, of BaseSolver.VariableList and of
         the BaseSolver's series attributes is taken and compared with the previous one; lists returned
@@ -69,8 +78,13 @@ solved model are coded 100 + rank among the distinct values of the tracked serie
 driver's own values are the ints 99 (sentinel appended to returned lists) and 7 (Extend), anything else is -1.
 """
 import concurrent.futures
+import importlib
 import json
+import os
+import pickle
 import random
+import struct
+import sys
 
 from harness import core
 
@@ -318,6 +332,7 @@ _WORLDS = {}
 
 
 def world(kind):
+    pristine()      # must exist before the first object of the package is built
     if kind not in _WORLDS:
         _WORLDS[kind] = World(kind)
     return _WORLDS[kind]
@@ -347,15 +362,148 @@ def base_cell(cell):
 # replay
 # --------------------------------------------------------------------------------------
 
+# --------------------------------------------------------------------------------------
+# the pristine process: where reference renderings (and confirmations of witnesses) are made
+# --------------------------------------------------------------------------------------
+
+def _send(fd, obj):
+    data = pickle.dumps(obj, protocol=pickle.HIGHEST_PROTOCOL)
+    data = struct.pack('>Q', len(data)) + data
+    while data:
+        n = os.write(fd, data)
+        data = data[n:]
+
+
+def _recv(fd):
+    def read(n):
+        buf = b''
+        while len(buf) < n:
+            chunk = os.read(fd, n - len(buf))
+            if not chunk:
+                raise EOFError()
+            buf += chunk
+        return buf
+    return pickle.loads(read(struct.unpack('>Q', read(8))[0]))
+
+
+def _serve(req):
+    if req[0] == 'ref':
+        _, module, clsname, tsname, before, fmt = req
+        try:
+            cls = getattr(importlib.import_module(module), clsname)
+            fresh = cls(tsname)
+            for k, v in before.items():
+                fresh[k] = list(v)
+            text = fresh.GenerateCSVtext(fmt)
+            return (True, text) if isinstance(text, str) else (False, '')
+        except Exception:
+            return False, ''
+    if req[0] == 'exec':
+        global PRISTINE
+        PRISTINE = None             # this process has executed nothing yet: it gets a pristine process of its own
+        _WORLDS.clear()
+        try:
+            return execute(req[1], req[2])
+        finally:
+            if PRISTINE is not None:
+                PRISTINE.close()
+    raise ValueError('unknown request')
+
+
+class Pristine(object):
+    """A process forked off before anything in sfc_models was executed (the package is imported, no object was
+    built, nothing was rendered).  Every request is served by a fork of that process which exits afterwards, so
+    each answer comes from a state that no call made anywhere else - in the driver, or for an earlier request -
+    can have touched."""
+
+    def __init__(self):
+        if _WORLDS:
+            raise core.MachineryError('the pristine process must be started before any world is built')
+        req_r, req_w = os.pipe()
+        ans_r, ans_w = os.pipe()
+        sys.stdout.flush()
+        sys.stderr.flush()
+        pid = os.fork()
+        if pid == 0:
+            try:
+                os.close(req_w)
+                os.close(ans_r)
+                while True:
+                    try:
+                        req = _recv(req_r)
+                    except EOFError:
+                        break
+                    if req is None:
+                        break
+                    r, w = os.pipe()
+                    kid = os.fork()
+                    if kid == 0:
+                        try:
+                            os.close(r)
+                            try:
+                                out = ('ok', _serve(req))
+                            except BaseException as e:      # reported to the driver as a machinery failure
+                                out = ('error', '%s: %s' % (type(e).__name__, e))
+                            _send(w, out)
+                        finally:
+                            os._exit(0)
+                    os.close(w)
+                    try:
+                        out = _recv(r)
+                    except Exception as e:
+                        out = ('error', 'no answer from the serving process: %r' % (e,))
+                    os.close(r)
+                    os.waitpid(kid, 0)
+                    _send(ans_w, out)
+            finally:
+                os._exit(0)
+        os.close(req_r)
+        os.close(ans_w)
+        self.pid, self.req_w, self.ans_r = pid, req_w, ans_r
+        self.cache = {}
+        self.asked = 0
+
+    def ask(self, req):
+        try:
+            _send(self.req_w, req)
+            status, out = _recv(self.ans_r)
+        except Exception as e:
+            raise core.MachineryError('pristine process failed: %r' % (e,))
+        if status != 'ok':
+            raise core.MachineryError('pristine process: ' + str(out))
+        self.asked += 1
+        return out
+
+    def close(self):
+        try:
+            _send(self.req_w, None)
+            os.close(self.req_w)
+            os.close(self.ans_r)
+            os.waitpid(self.pid, 0)
+        except Exception:
+            pass
+
+
+PRISTINE = None
+
+
+def pristine():
+    global PRISTINE
+    if PRISTINE is None:
+        PRISTINE = Pristine()
+    return PRISTINE
+
+
 def fresh_text(holder, before, fmt):
-    """Reference rendering: a new holder of the same class holding copies of the series in `before`."""
-    try:
-        fresh = type(holder)(getattr(holder, 'TimeSeriesName', 'k'))
-        for k, v in before.items():
-            fresh[k] = list(v)
-        return True, fresh.GenerateCSVtext(fmt)
-    except Exception:
-        return False, ''
+    """Reference rendering: a NEW holder of the same class holding copies of the series in `before`, rendered
+    with the same format by a process that has not rendered (or done) anything else.  It is a function of
+    (class, stored series, format) by construction, hence cached."""
+    p = pristine()
+    cls = type(holder)
+    key = (cls.__module__, cls.__name__, str(getattr(holder, 'TimeSeriesName', 'k')), core.digest(before), fmt)
+    if key not in p.cache:
+        p.cache[key] = tuple(p.ask(('ref', key[0], key[1], key[2], before, fmt)))
+    return p.cache[key]
 
 
 def bnames(w, grp, reals):
@@ -700,22 +848,60 @@ def judge(rep, behs, kind, need_failing_get=False, need_one_point=False, need_be
     rep.traces += len(traces)
     rep.extra['trace_validation_states'] = rep.extra.get('trace_validation_states', 0) + st
     rep.extra['replayed_' + kind] = rep.extra.get('replayed_' + kind, 0) + len(traces)
+    def detail_of(b, events, at, note=''):
+        bad = events[at - 1] if 0 < at <= len(events) else {}
+        return 'world=%s calls=[%s] failing call #%d %s observed %s%s' % (
+            kind, '; '.join(call_text(c) for c in b['calls']), at - 1, bad.get('ev'),
+            json.dumps({k: bad.get(k) for k in ('ok', 'ret', 'stored', 'aliased', 'fresh_ok', 'fresh_same', 'hdr',
+                                                'snap', 'vl', 'store_same', 'vl_same', 'base_same', 'same_first',
+                                                'exc') if k in bad}, sort_keys=True), note)
+
+    found = []                      # (index, clause, at, signature)
     for i, b in enumerate(behs):
         kindv, clause, at = parse_verdict(verdicts[i])
         if kindv == 'ok':
             continue
-        events = traces[i][1]
-        case = {'world': kind, 'behaviour': b, 'observed': events}
         if kindv == 'property':
-            bad = events[at - 1] if 0 < at <= len(events) else {}
-            detail = 'world=%s calls=[%s] failing call #%d %s observed %s' % (
-                kind, '; '.join(call_text(c) for c in b['calls']), at - 1, bad.get('ev'),
-                json.dumps({k: bad.get(k) for k in ('ok', 'ret', 'stored', 'aliased', 'fresh_ok', 'fresh_same', 'hdr', 'snap', 'vl', 'store_same',
-                                                    'vl_same', 'base_same', 'same_first', 'exc')
-                            if k in bad}, sort_keys=True))
-            rep.violate(clause, signature(clause, at, events), case, detail=detail)
+            found.append((i, clause, at, signature(clause, at, traces[i][1])))
         else:
-            rep.add_drift(clause, case)
+            rep.add_drift(clause, {'world': kind, 'behaviour': b, 'observed': traces[i][1]})
+    if not found:
+        return
+    # The histories of one world share a process.  A violation that only shows because of what an EARLIER
+    # history left behind in the process is a violation all the same, but its history alone would not
+    # reproduce it.  So, per signature, the shortest histories are executed again in a process of their own
+    # (forked from the pristine one) and judged again; a history that reproduces is reported first.
+    by_sig = {}
+    for f in found:
+        by_sig.setdefault((f[1], f[3]), []).append(f)
+    cand = []
+    for key, fs in by_sig.items():
+        fs.sort(key=lambda f: (len(behs[f[0]]['calls']), f[0]))
+        cand.extend(fs[:4])
+    cand = cand[:40]
+    again = [(j, pristine().ask(('exec', behs[f[0]], kind))) for j, f in enumerate(cand)]
+    verdicts2, _, _ = core.validate_traces('MC_Results_Trace', 'MC_Results_Trace.cfg', again, tag='c16c')
+    confirmed = {}
+    for j, f in enumerate(cand):
+        kindv, clause2, at2 = parse_verdict(verdicts2[j])
+        if kindv == 'property' and clause2 == f[1] and signature(clause2, at2, again[j][1]) == f[3]:
+            confirmed.setdefault((f[1], f[3]), (f, again[j][1], at2))
+    for key, (f, events2, at2) in confirmed.items():
+        b = behs[f[0]]
+        rep.violate(f[1], f[3], {'world': kind, 'behaviour': b, 'observed': events2},
+                    detail=detail_of(b, events2, at2, ' [reproduces in a process of its own]'))
+    for i, clause, at, sig in found:
+        if (clause, sig) in confirmed:
+            if confirmed[(clause, sig)][0][0] == i:
+                continue            # already reported above
+            rep.violate(clause, sig, {'world': kind, 'behaviour': behs[i], 'observed': traces[i][1]},
+                        detail=detail_of(behs[i], traces[i][1], at))
+        else:
+            rep.violate(clause, sig + ':after-earlier-histories-in-the-same-process',
+                        {'world': kind, 'behaviour': behs[i], 'observed': traces[i][1]},
+                        detail=detail_of(behs[i], traces[i][1], at,
+                                         ' [the histories replayed before this one in the same process are part '
+                                         'of the witness; alone it does not reproduce]'))
 
 
 def behaviours_of(rep, cfg, seen, res):
@@ -734,13 +920,23 @@ def behaviours_of(rep, cfg, seen, res):
 
 
 QUICK_CFGS = ['MC_Results_quick.cfg', 'MC_Results_quick2.cfg', 'MC_Results_ragged.cfg', 'MC_Results_miss.cfg',
-              'MC_Results_edge.cfg', 'MC_Results_horizon.cfg', 'MC_Results_names.cfg']
+              'MC_Results_edge.cfg', 'MC_Results_horizon.cfg', 'MC_Results_names.cfg', 'MC_Results_formats.cfg']
 THOROUGH_CFGS = ['MC_Results_thorough.cfg', 'MC_Results_thorough2.cfg', 'MC_Results_ragged_thorough.cfg',
                  'MC_Results_miss_thorough.cfg', 'MC_Results_miss_thorough2.cfg', 'MC_Results_edge_thorough.cfg',
-                 'MC_Results_horizon_thorough.cfg', 'MC_Results_names_thorough.cfg']
+                 'MC_Results_horizon_thorough.cfg', 'MC_Results_names_thorough.cfg', 'MC_Results_formats_thorough.cfg']
 
 
 def run(rep):
+    pristine()      # before any thread is started and before anything of sfc_models is executed
+    try:
+        _run(rep)
+    finally:
+        rep.extra['reference_renderings_in_pristine_process'] = PRISTINE.asked if PRISTINE else 0
+        if PRISTINE is not None:
+            PRISTINE.close()
+
+
+def _run(rep):
     cfgs = QUICK_CFGS if rep.tier == 'quick' else QUICK_CFGS + THOROUGH_CFGS
     rep.rule = ('behaviours = all maximal call histories of the bounded Results instances emitted by TLC '
                 '(Get group x name x cutoff incl. names the group does not hold and cutoff 0, MutateHeld index x '
@@ -797,8 +993,10 @@ def run(rep):
         # a seeded sample of the name-list / replace histories on the real models
         names = by_cfg['MC_Results_names.cfg'] + by_cfg['MC_Results_names_thorough.cfg']
         rnd.shuffle(names)
-        judge(rep, names[:3000], 'solved')
-        judge(rep, names[:3000], 'interrupted')
+        # ... and all two-format histories (these models have rendered their own store in main() already)
+        formats = by_cfg['MC_Results_formats.cfg'] + by_cfg['MC_Results_formats_thorough.cfg']
+        judge(rep, names[:3000] + formats, 'solved')
+        judge(rep, names[:3000] + formats, 'interrupted')
 
 
 def replay(path):
@@ -808,6 +1006,7 @@ def replay(path):
     beh = case['behaviour']
     kind = case.get('world', 'known')
     rep = core.Report('C16', 'quick', 0)
+    pristine()
     judge(rep, [beh], kind)
     print(json.dumps({'world': kind, 'behaviour': beh, 'observed_now': execute(beh, kind)}, indent=1))
     for v in rep.violations:
